@@ -68,7 +68,9 @@ def expected(src_steps, dst_steps, vals):
     """Per destination step the Outcome of converting the source execution."""
     src = {sn: (t, v) for (sn, t), v in zip(src_steps, vals)}
     outs = []
+    changed = []
     for sn, t in dst_steps:
+        changed.append(not (sn in src and evoref.same(src[sn][0], t)))
         if sn in src:
             st, sv = src[sn]
             if st[0] == "stream" and t[0] == "stream":
@@ -79,7 +81,7 @@ def expected(src_steps, dst_steps, vals):
                 outs.append(evoref.conv(sv, st, t))
         else:
             outs.append(evoref.exact(evoref.zero(t)))
-    return outs
+    return outs, changed
 
 
 def judge(chk, ctx, direction, label, exlabel, outs, dst_steps, st, out, msg, schema_expect, bufsize):
@@ -174,21 +176,21 @@ def run_edit(job):
                 # forward: old stream -> new reader -> new writer
                 for exlabel, vals in step_executions(osteps, k):
                     data = refcodec.encode_protocol(osteps, vals, oschema, None)
-                    outs = expected(osteps, nsteps, vals)
+                    outs, changed = expected(osteps, nsteps, vals)
                     for bs in (1, 3):
                         st, out, msg = pr.cpp.call(Pn, "b2b", data, bs)
-                        recs.append(("forward", lbl, Pn, exlabel, outs, nsteps, st, out, msg, None, bs, None))
+                        recs.append(("forward", lbl, Pn, exlabel, outs, nsteps, st, out, msg, None, bs, None, changed))
                 # backward: new stream -> new reader -> new writer(Version::lbl) -> old reference decoder and old generated reader
                 for exlabel, vals in step_executions(nsteps, k):
                     data = refcodec.encode_protocol(nsteps, vals, nschema, None)
-                    outs = expected(nsteps, osteps, vals)
+                    outs, changed = expected(nsteps, osteps, vals)
                     for bs in (1, 3):
                         st, out, msg = pr.cpp.call(Pn, "b2b@" + lbl, data, bs)
                         old_reader = None
                         if st == "OK":
                             st2, out2, msg2 = odrv.call(Pn, "b2b", out, 1)
                             old_reader = (st2, out2, msg2)
-                        recs.append(("backward", lbl, Pn, exlabel, outs, osteps, st, out, msg, oschema, bs, old_reader))
+                        recs.append(("backward", lbl, Pn, exlabel, outs, osteps, st, out, msg, oschema, bs, old_reader, changed))
     finally:
         pr.close()
         for d in odrvs:
@@ -209,7 +211,7 @@ def main(tier):
                 "position per operator) in both directions, plus two-edit chains with both earlier versions listed; per history every execution "
                 "that varies one step over all values with <= 1 deviation (streams: each item alone, all items, reversed), forward (old stream "
                 "through the new reader, single-item and batch) and backward (new writer targeting the old version, checked by the reference "
-                "decoder and by the old version's own generated reader); non-trivial = an execution whose expected outcome is not 'undocumented'")
+                "decoder and by the old version's own generated reader); non-trivial = an execution in which a step whose type differs between the two versions is the one being varied (it is converted, defaulted or dropped on the way)")
     build.yardl_bin()
     cppdrv.inc_dir()
     base = c05_base()
@@ -291,6 +293,7 @@ def main(tier):
     base_pr.close()
 
     nrej = ncomp = 0
+    HIST = set()
     for hist, (label, cls, status, err, recs) in results:
         ctx = {"history": label, "class": cls}
         if status == "old-side-does-not-build":
@@ -304,10 +307,13 @@ def main(tier):
             chk.fail("does-not-compile/%s" % label.split("/")[0].replace("reverse:", "").split(":")[-1], "%s: yardl accepted the history but the generated C++ does not compile: %s" % (label, err[:400]),
                      dict(ctx, error=err))
             continue
-        for direction, lbl, Pn, exlabel, outs, dst_steps, st, out, msg, schema_expect, bs, old_reader in recs:
+        for direction, lbl, Pn, exlabel, outs, dst_steps, st, out, msg, schema_expect, bs, old_reader, changed in recs:
             chk.count()
-            if not all(o.silent for o in outs):
+            # non-trivial: some step of this execution is converted, defaulted, dropped or may/must raise (not a plain copy)
+            varied = exlabel.split("=")[0].split("[")[0]
+            if any(tag and not o.silent and sn == varied for o, tag, (sn, _) in zip(outs, changed, dst_steps)):
                 chk.nontriv((label, lbl, direction, Pn, exlabel, bs))
+            HIST.add((label, lbl, direction, Pn))
             d = "%s(%s)" % (direction, lbl) if hist == "chain" else direction
             got = judge(chk, dict(ctx, version=lbl, protocol=Pn), direction, label, exlabel, outs, dst_steps, st, out, msg, schema_expect, bs)
             if old_reader is not None and got is not None:
@@ -323,6 +329,9 @@ def main(tier):
                                      dict(ctx, execution=exlabel))
                     except Exception as e:  # noqa
                         chk.fail("backward/old-reader-output-undecodable/%s" % label.split("/")[0], "%s: %s" % (label, e), dict(ctx, execution=exlabel))
+    chk.extra["states"] = len(HIST)                      # distinct (history, listed version, direction, protocol) conversion paths
+    chk.extra["transitions"] = chk.evaluations           # executions pushed through them
+    chk.extra["traces_validated_against_impl"] = chk.evaluations   # each is run on the generated C++ of the new (and old) version
     chk.extra["histories"] = {"forward": len(jobs), "reverse": len([1 for h, _ in results if h == "reverse-history"]), "chains": len([1 for h, _ in results if h == "chain"]),
                               "rejected_by_yardl": nrej, "compile_errors": ncomp}
     chk.sample({"histories": [r[1][0] for r in results[:10]]})
